@@ -1,25 +1,53 @@
-(* Float.v — model of Rust's f64 as used by molt: IEEE-754 binary64 arithmetic (Flocq's
+(* Float.v — model of Rust's f64 as used by molt: IEEE-754 binary64 arithmetic (Coq's SpecFloat
    executable definitions), Rust's decimal parser and shortest-round-trip Display.
    A float is carried as its 64-bit pattern.  Rust std itself is trusted, not verified; this
    file is validated against it by the correspondence runs. *)
 From Molt Require Import Model.Base.
-From Flocq Require Import Core.Zaux Core.FLT IEEE754.BinarySingleNaN IEEE754.Binary IEEE754.Bits.
+From Coq Require Import Floats.SpecFloat.
 Local Open Scope Z_scope.
 
+(* Arithmetic is Coq's own executable specification of IEEE-754 binary64 (Floats.SpecFloat:
+   SFadd, SFmul, ... with round-to-nearest-even), which is axiom-free. *)
 Definition fl := Z.
 
-#[local] Instance prec53 : FLX.Prec_gt_0 53 := eq_refl.
-#[local] Instance prec53_1024 : Prec_lt_emax 53 1024 := eq_refl.
+Definition prec : Z := 53.
+Definition emax : Z := 1024.
 
-Definition of_bits (b : fl) : binary64 := b64_of_bits b.
-Definition to_bits (f : binary64) : fl := bits_of_b64 f.
+Definition of_bits (b : fl) : spec_float :=
+  let s := Z.testbit b 63 in
+  let e := (b / 2 ^ 52) mod 2 ^ 11 in
+  let m := b mod 2 ^ 52 in
+  if e =? 0 then
+    match m with
+    | Zpos p => S754_finite s p (-1074)
+    | _ => S754_zero s
+    end
+  else if e =? 2047 then
+    (if m =? 0 then S754_infinity s else S754_nan)
+  else
+    match m + 2 ^ 52 with
+    | Zpos p => S754_finite s p (e - 1075)
+    | _ => S754_zero s
+    end.
 
-Definition fadd (a b : fl) : fl := to_bits (b64_plus mode_NE (of_bits a) (of_bits b)).
-Definition fsub (a b : fl) : fl := to_bits (b64_minus mode_NE (of_bits a) (of_bits b)).
-Definition fmul (a b : fl) : fl := to_bits (b64_mult mode_NE (of_bits a) (of_bits b)).
-Definition fdiv (a b : fl) : fl := to_bits (b64_div mode_NE (of_bits a) (of_bits b)).
-Definition fneg (a : fl) : fl := to_bits (b64_opp (of_bits a)).
-Definition fcmp (a b : fl) : option comparison := b64_compare (of_bits a) (of_bits b).
+Definition sign_bit (s : bool) : Z := if s then 2 ^ 63 else 0.
+
+Definition to_bits (f : spec_float) : fl :=
+  match f with
+  | S754_zero s => sign_bit s
+  | S754_infinity s => sign_bit s + 2047 * 2 ^ 52
+  | S754_nan => 2047 * 2 ^ 52 + 2 ^ 51
+  | S754_finite s m e =>
+      if Zpos m <? 2 ^ 52 then sign_bit s + Zpos m
+      else sign_bit s + (e + 1075) * 2 ^ 52 + (Zpos m - 2 ^ 52)
+  end.
+
+Definition fadd (a b : fl) : fl := to_bits (SFadd prec emax (of_bits a) (of_bits b)).
+Definition fsub (a b : fl) : fl := to_bits (SFsub prec emax (of_bits a) (of_bits b)).
+Definition fmul (a b : fl) : fl := to_bits (SFmul prec emax (of_bits a) (of_bits b)).
+Definition fdiv (a b : fl) : fl := to_bits (SFdiv prec emax (of_bits a) (of_bits b)).
+Definition fneg (a : fl) : fl := to_bits (SFopp (of_bits a)).
+Definition fcmp (a b : fl) : option comparison := SFcompare (of_bits a) (of_bits b).
 Definition f_lt a b := match fcmp a b with Some Lt => true | _ => false end.
 Definition f_gt a b := match fcmp a b with Some Gt => true | _ => false end.
 Definition f_le a b := match fcmp a b with Some Lt | Some Eq => true | _ => false end.
@@ -27,22 +55,27 @@ Definition f_ge a b := match fcmp a b with Some Gt | Some Eq => true | _ => fals
 Definition f_eq a b := match fcmp a b with Some Eq => true | _ => false end.
 Definition f_ne a b := negb (f_eq a b).
 
-Definition f_of_Z (z : Z) : fl := to_bits (binary_normalize 53 1024 _ _ mode_NE z 0 false).
+Definition normalize (m e : Z) : spec_float := binary_normalize prec emax m e false.
+
+Definition f_of_Z (z : Z) : fl := to_bits (normalize z 0).
 Definition f_zero : fl := 0.
-Definition f_half : fl := Eval vm_compute in to_bits (binary_normalize 53 1024 _ _ mode_NE 1 (-1) false).
+Definition f_half : fl := Eval vm_compute in to_bits (normalize 1 (-1)).
 Definition f_is_zero (a : fl) : bool := f_eq a f_zero.
 Definition f_pos_inf : fl := 9218868437227405312.   (* 0x7FF0000000000000 *)
 Definition f_neg_inf : fl := 18442240474082181120.  (* 0xFFF0000000000000 *)
 Definition f_nan : fl := 9221120237041090560.       (* 0x7FF8000000000000 *)
-Definition f_is_nan (a : fl) : bool := Binary.is_nan 53 1024 (of_bits a).
+Definition f_is_nan (a : fl) : bool := match of_bits a with S754_nan => true | _ => false end.
 
 (* Rust's `f as i64`: truncate toward zero, saturate, NaN -> 0 *)
 Definition f_to_i64 (a : fl) : Z :=
   match of_bits a with
-  | Binary.B754_nan _ _ _ _ _ => 0
-  | Binary.B754_infinity _ _ s => if s then i64_min else i64_max
-  | x => let t := Binary.Btrunc 53 1024 x in
-         if t <? i64_min then i64_min else if i64_max <? t then i64_max else t
+  | S754_nan => 0
+  | S754_infinity s => if s then i64_min else i64_max
+  | S754_zero _ => 0
+  | S754_finite s m e =>
+      let mag := if 0 <=? e then Zpos m * 2 ^ e else Zpos m / 2 ^ (- e) in
+      let t := if s then - mag else mag in
+      if t <? i64_min then i64_min else if i64_max <? t then i64_max else t
   end.
 
 (* ---- decimal parsing: m * 10^e, correctly rounded ---- *)
@@ -54,15 +87,15 @@ Definition f_of_ratio (neg : bool) (num den : Z) : fl :=
   let q := (num * 2 ^ k) / den in
   let r := (num * 2 ^ k) mod den in
   let q' := 2 * q + (if r =? 0 then 0 else 1) in
-  let f := binary_normalize 53 1024 _ _ mode_NE q' (- k - 1) false in
-  to_bits (if neg then b64_opp f else f).
+  let f := normalize q' (- k - 1) in
+  to_bits (if neg then SFopp f else f).
 
 Definition f_of_decimal (neg : bool) (m : Z) (e : Z) : fl :=
-  if m =? 0 then (if neg then to_bits (b64_opp (of_bits 0)) else 0)
+  if m =? 0 then (if neg then sign_bit true else 0)
   else
     let d := Z.log2 m / 3 + 1 in    (* at least the number of decimal digits / generous *)
     if 310 <? e then (if neg then f_neg_inf else f_pos_inf)
-    else if e + d <? -345 then (if neg then to_bits (b64_opp (of_bits 0)) else 0)
+    else if e + d <? -345 then (if neg then sign_bit true else 0)
     else if 0 <=? e then f_of_ratio neg (m * 10 ^ e) 1
     else f_of_ratio neg m (10 ^ (- e)).
 
@@ -121,9 +154,9 @@ Definition f_parse (s : str) : option fl :=
 (* exact value of a finite positive float as num/den *)
 Definition f_ratio (a : fl) : option (bool * Z * Z) :=
   match of_bits a with
-  | Binary.B754_finite _ _ s m e _ =>
+  | S754_finite s m e =>
       if 0 <=? e then Some (s, Zpos m * 2 ^ e, 1) else Some (s, Zpos m, 2 ^ (- e))
-  | Binary.B754_zero _ _ s => Some (s, 0, 1)
+  | S754_zero s => Some (s, 0, 1)
   | _ => None
   end.
 
